@@ -722,10 +722,19 @@ func (req *Request) mergeDistributedResponse(collectedDatasets chan ResultSet, c
 		request: req,
 	}
 
+	// requested backends which do not exist
+	for id, val := range req.BackendErrors {
+		res.failed[id] = val
+	}
+
 	// Merge data
 	isStatsRequest := len(req.Stats) != 0
 	req.StatsResult = NewResultSetStats()
 	for currentRows := range collectedDatasets {
+		currentFailedHash := <-collectedFailedHashes
+		for id, val := range currentFailedHash {
+			res.failed[id] = val
+		}
 		if isStatsRequest {
 			// Stats request
 			// Value (sum), count (number of elements)
@@ -756,10 +765,6 @@ func (req *Request) mergeDistributedResponse(collectedDatasets chan ResultSet, c
 		} else {
 			// Regular request
 			res.result = append(res.result, currentRows...)
-			currentFailedHash := <-collectedFailedHashes
-			for id, val := range currentFailedHash {
-				res.failed[id] = val
-			}
 		}
 	}
 
